@@ -7,6 +7,19 @@ HERE = os.path.dirname(os.path.dirname(os.path.abspath(__file__)))
 BASELINE = "cd /repo && /venv/bin/python -m pytest -ra -q -p no:cacheprovider --timeout=900 --continue-on-collection-errors"
 
 CHECKS = {
+    'C12': dict(
+        text='Lean theorems: (a) the inventory of eval/exec/compile/__import__/open/literal_eval call sites regenerated from the source '
+             'equals the modelled one; (b) for every string, quote character and safe-mode flag, quote + MiniString body + quote is '
+             'exactly one string literal under the tokenizer specification (parametric in the escape tables, which are regenerated from '
+             'ministring.py and checked by decide); (c) every closed literal expression prints to numeric texts, True/False/None, '
+             'operators and parentheses only, and FoldConstants evaluates nothing else (with C07.fold_only_when). Tie: texts reaching '
+             'eval are captured on the real code and compared with the model; the string-lexing spec is validated against tokenize; '
+             'whole programs run under an audit hook: every executed code object must be a closed literal, no import/open/process/socket event.',
+        note='Not modelled in Lean: f_string.Str / f_string.Bytes literal splitting and the f-string candidate search (audit-hook and '
+             'tokenize oracle on the real code only). Assumed: evaluating a closed literal has no side effect; the audit hook sees every '
+             'executed code object.',
+        technique='Lean 4 proof (induction over strings with a lexer specification; generated inventory and escape tables by decide) + capture of eval arguments + audit-hook oracle',
+        ref='§6 C12'),
     'C07': dict(
         text='Lean theorems on a model of FoldConstants: for every evaluation oracle (float/complex arithmetic is a parameter) and '
              'every expression, nested to any depth, folding preserves the value of every closed literal arithmetic expression under the '
